@@ -23,16 +23,19 @@ From JT.Proofs Require Import Frame_proofs Reply_proofs.
 
 (* exactly one reply for every message that requires one, none for any other (responses,
    unsupported ids, incomplete packets, registered platform ids), in the order the requests
-   arrived — in every complete history; and every reply is of the reply type the standard defines
-   for its request, built on the request's header, with the prescribed body *)
+   arrived — in every complete history WITHOUT ABSORPTION (hypothesis no_absorb; with absorption see
+   C06_outcomes_each and C06_one_reply_each_without_1003); and every reply is of the reply type the
+   standard defines for its request, built on the request's header, with the prescribed body where the
+   request's body is well formed for its type (reply_ok: under body_wf and bytes) *)
 Theorem C06_one_reply_each : forall ms s, no_absorb s = true -> drained (final (init ms) s) = true ->
   srcs (replies (trace (init ms) s)) = filter answered ms /\
   Forall reply_ok (replies (trace (init ms) s)).
 Proof. exact one_reply_each. Qed.
 Print Assumptions C06_one_reply_each.
 
-(* safety at every moment of every history, complete or not: the replies written so far answer a
-   prefix of the answered messages (never a reply too many, never out of order) *)
+(* safety at every moment of every history without absorption (no_absorb), complete or not: the replies
+   written so far answer a prefix of the answered messages (never a reply too many, never out of
+   order); with absorption: C06_outcomes_in_order *)
 Theorem C06_replies_in_order : forall ms s, no_absorb s = true ->
   exists later, srcs (replies (trace (init ms) s)) ++ later = filter answered ms.
 Proof. exact replies_prefix. Qed.
@@ -67,8 +70,9 @@ Theorem C06_one_reply_each_without_1003 : forall ms s, Forall not_1003 (filter a
 Proof. exact one_reply_each_no1003. Qed.
 Print Assumptions C06_one_reply_each_without_1003.
 
-(* which ids are handled and which are answered with which type — for EVERY id 0..; the table of
-   the code (createDefaultHandle + HasReply/ReplyProtocol) against the table of the standard *)
+(* which ids are handled and which are answered with which type — for EVERY id 0..; the MODEL's copy of
+   the code's table (default_handles; equal to what createDefaultHandle + HasReply/ReplyProtocol say
+   now by Gen/TablesOk_reply.v) against the table of the standard *)
 Theorem C06_reply_table : forall id,
   (match lookup id with Some _ => true | None => false end) = std_registered id /\
   (match lookup id with Some hi => if hi_has hi then Some (hi_rid hi) else None | None => None end)
@@ -76,7 +80,8 @@ Theorem C06_reply_table : forall id,
 Proof. exact reply_table. Qed.
 Print Assumptions C06_reply_table.
 
-(* correlation, on the bytes written: every reply frame decodes (C01) to the reply type defined for
+(* correlation, on the bytes written (hypotheses: every message is a decoded frame - dmsg_wf -, no
+   absorption; the body conjunct under body_wf): every reply frame decodes (C01) to the reply type defined for
    its request, the sender's phone and protocol version, the platform serial it was given, no
    fragment bit, and the prescribed body (std_body: request serial + request id + result /
    serial + 0 + auth code / multimedia id / file name + type + 0 + 0 / empty for 0x1003) *)
@@ -110,15 +115,17 @@ Theorem C06_callbacks_read : forall ms s, reader_done (final (init ms) s) = true
 Proof. exact callbacks_read. Qed.
 Print Assumptions C06_callbacks_read.
 
-(* write callbacks: every write is followed at once by its two write callbacks, exactly once, with
-   the bytes actually sent, in every history *)
+(* write callbacks, in every history: within the writer's observations every write of a reply or of a
+   complete 0x8003 echo is followed at once by its two write callbacks, exactly once, with the bytes
+   actually sent; a platform command and an echo of an incomplete packet have none (wire_report) *)
 Theorem C06_callbacks_write : forall ms s,
   writer_obs (trace (init ms) s) = flat_map wire_report (writes (trace (init ms) s)).
 Proof. exact callbacks_write. Qed.
 Print Assumptions C06_callbacks_write.
 
-(* read before write: at every moment the replies written so far answer messages whose read
-   callbacks have already run *)
+(* read before write, histories without absorption: at every moment the replies written so far answer
+   messages whose (TerminalEventer) read callbacks have already run; C06_read_before_outcome below is
+   the statement for every history *)
 Theorem C06_read_before_reply : forall ms s, no_absorb s = true ->
   exists queued, filter answered (read_srcs (trace (init ms) s)) = srcs (replies (trace (init ms) s)) ++ queued.
 Proof. exact callbacks_read_before_reply. Qed.
@@ -150,13 +157,21 @@ Theorem C06_read_before_reply_handler : forall ms s, no_absorb s = true ->
 Proof. exact callbacks_read_before_reply_h. Qed.
 Print Assumptions C06_read_before_reply_handler.
 
-(* ANY NUMBER OF CONCURRENT CONNECTIONS.  The server's reply path is the list of its connections'
-   states; a global history is any list of (connection, move) pairs - every interleaving of every
-   number of connections.  Connection i ends in the state, and shows the observations, of its OWN
-   moves run alone: nothing another connection does reaches it (each accepted connection has its own
-   handler instances, channels and serial counter: service.go Run, tied by
-   Gen/TablesOk_reply.v tables_handles_per_connection).  Every statement above therefore holds for each
-   connection of a concurrent server; three of them spelled out. *)
+(* ANY NUMBER OF CONCURRENT CONNECTIONS - what exactly is proved and what ties it to the code.
+   The model of a server with several connections is the PRODUCT of the one-connection models: the state
+   is the list of the connections' states, a global move (i, mv) applies [step] to component i.  This
+   product is independent BY DEFINITION; the theorem below is the frame property of that definition
+   (component i and the observations tagged i are those of i's own moves run alone, for every
+   interleaving), which lets every one-connection statement of this file be read per connection (three
+   are spelled out).  It proves nothing about the code by itself.  That the CODE has this product shape -
+   no state of the reply path shared between connections - is an assumption tied to the source by one
+   syntactic check of the translator: gen_handles_per_connection = true iff GoJT808.Run calls
+   createDefaultHandle() and newConnection() inside the accept loop, every value of createDefaultHandle's
+   map literal is a fresh &model.T{}, and newConnection's literal makes msgChan / reissuePackChan and sets
+   platformSerialNumber (Gen/TablesOk_reply.v tables_handles_per_connection).  It does not look at
+   custom handler functions (default configuration only) nor at package-level state elsewhere; the
+   session registry, the one shared structure, is C11's subject; data races are C18's.  At run time the
+   harness plays 8 connections at a time and checks each against its own expectation. *)
 Theorem C06_connections_independent : forall s cs i,
   nth_error (gfinal cs s) i = option_map (fun c => final c (proj_moves i s)) (nth_error cs i) /\
   proj_obs i (gtrace cs s) = match nth_error cs i with Some c => trace c (proj_moves i s) | None => [] end.
@@ -182,20 +197,44 @@ Theorem C06_one_reply_each_concurrent : forall mss s i ms, nth_error mss i = Som
 Proof. exact one_reply_each_concurrent. Qed.
 Print Assumptions C06_one_reply_each_concurrent.
 
+(* read before write for EVERY history, absorption included: what the writer has dealt with so far -
+   replies written and responses handed over (an absorbed message has no write at all) - are messages
+   whose read callbacks, the TerminalEventer's and the Handler's, have already run *)
+Theorem C06_read_before_outcome : forall ms s,
+  exists queued, filter answered (read_srcs (trace (init ms) s)) = outcomes (trace (init ms) s) ++ queued.
+Proof. exact callbacks_read_before_outcome. Qed.
+Print Assumptions C06_read_before_outcome.
+Theorem C06_read_before_outcome_handler : forall ms s,
+  exists queued, filter answered (read_srcs_h (trace (init ms) s)) = outcomes (trace (init ms) s) ++ queued.
+Proof. exact callbacks_read_before_outcome_h. Qed.
+Print Assumptions C06_read_before_outcome_handler.
+
 (* WHERE THE CODE DOES NOT DO WHAT THE PROPERTY SAYS (known_findings.json; the model carries the code's
    behaviour, the theorems above exclude exactly these classes or count the hand-over as an outcome).
 
    C06/1003-absorbed-no-reply.  The property claims a reply for every complete 0x1003 (HasReply is true
    and, with no command outstanding, the server does send an empty 0x8001).  While a 0x9003 query is
-   outstanding the writer hands the 0x1003 to the waiting SendActiveMessage caller and writes nothing:
-   a complete history in which an answered message gets no reply.  What is proved instead:
+   outstanding the writer hands the 0x1003 to the waiting SendActiveMessage caller and writes nothing.
+   The witness is the real conversation (what harness item Q plays against the server): heartbeat [a]
+   (joins), command 0x9003 written and left outstanding, the terminal's complete 0x1003 [b]: the history
+   is complete, [b] is an answered message, the frames written are a's reply and the command, [b] is
+   absorbed and has no reply.  What is proved instead:
    "reply OR hand-over, exactly once, in order" (the C06_outcomes theorems), and one reply each when no
    0x1003 is involved or nothing is absorbed. *)
 Theorem C06_refuted_1003_absorbed :
-  exists ms s, length ms = 1%nat /\ Forall dmsg_wf ms /\ filter answered ms = ms /\
-    drained (final (init ms) s) = true /\
-    replies (trace (init ms) s) = [] /\ absorbed (trace (init ms) s) = ms.
-Proof. exact refuted_1003_absorbed. Qed.
+  match dm ex_hb, dm ex_1003 with
+  | [a], [b] =>
+    m_id (d_m b) = 0x1003 /\ answered b = true /\
+    let its := [IMsg a; IAsk 0x9003 [] b] in
+    asks_ok its = true /\
+    drained (final (init (items_msgs its)) (items_moves None its)) = true /\
+    items_moves None its = [MLook; MSend; MReply; MCmd (d_m a) 0x9003 []; MLook; MSend; MAbsorb] /\
+    map (fun w => (w_kind w, w_rid w, w_src w)) (writes (run_items its)) = [(WReply, 0x8001, Some a); (WCmd, 0x9003, None)] /\
+    srcs (replies (run_items its)) = [a] /\ filter answered (items_msgs its) = [a; b] /\
+    absorbed (run_items its) = [b]
+  | _, _ => False
+  end.
+Proof. exact refuted_1003_absorbed_conversation. Qed.
 Print Assumptions C06_refuted_1003_absorbed.
 
 (* C06/0801-short-body.  "... or the multimedia ID (multimedia response)": an 0x0801 whose body is
@@ -246,3 +285,26 @@ Example C06_conversation2 :
   [ (0x8800, 0, [0; 0; 0; 7]); (0x9212, 1, [3; 97; 46; 98; 0; 0; 0]); (0x8001, 2, []) ] /\
   map (fun d => std_body (d_m d)) ms = [[0; 0; 0; 7]; [3; 97; 46; 98; 0; 0; 0]; []].
 Proof. exact example_conversation2. Qed.
+(* C06_one_reply_each_without_1003 says more than C06_one_reply_each: a history WITH absorption (a
+   0x8103 left outstanding, answered by the terminal's 0x0001) in which every answered message has its reply *)
+Example C06_absorbed_response_without_1003 :
+  match dm ex_hb, dm ex_0001 with
+  | [a], [b] =>
+    let its := [IMsg a; IAsk 0x8103 [0] b] in
+    let s := items_moves None its in let ms := items_msgs its in
+    asks_ok its = true /\ no_absorb s = false /\
+    forallb (fun d => negb (m_id (d_m d) =? 0x1003)) (filter answered ms) = true /\
+    drained (final (init ms) s) = true /\ absorbed (trace (init ms) s) = [b] /\
+    srcs (replies (trace (init ms) s)) = filter answered ms /\ filter answered ms = [a]
+  | _, _ => False
+  end.
+Proof. exact example_absorbed_response_without_1003. Qed.
+(* two connections interleaved move by move, both complete (an instance of the *_concurrent theorems) *)
+Example C06_two_connections :
+  let mss := [dm ex_hb; dm ex_0801_a] in
+  let s := [(0%nat, MLook); (1%nat, MLook); (1%nat, MSend); (0%nat, MSend); (1%nat, MReply); (0%nat, MReply)] in
+  map (fun c => drained c) (gfinal (map init mss) s) = [true; true] /\
+  no_absorb (proj_moves 0 s) = true /\ no_absorb (proj_moves 1 s) = true /\
+  map (fun w => (w_rid w, w_ps w)) (writes (proj_obs 0 (gtrace (map init mss) s))) = [(0x8001, 0)] /\
+  map (fun w => (w_rid w, w_ps w)) (writes (proj_obs 1 (gtrace (map init mss) s))) = [(0x8800, 0)].
+Proof. exact example_two_connections. Qed.
